@@ -953,8 +953,8 @@ class Interp:
 
     def setitem(self, obj, key, v):
         if isinstance(obj, (list, dict, bytearray)):
-            if is_sym(key):
-                raise Unsupported("symbolic key store")
+            if is_sym(key) and not isinstance(obj, dict):
+                raise Unsupported("symbolic index store")
             try:
                 obj[self._hashable(key)] = v
             except (IndexError, KeyError) as ex:
